@@ -506,8 +506,18 @@ func c11RcRun(tb rapid.TB, c c11RcCase) {
 			select {
 			case <-cli.disconnected:
 			default:
+				// (on its own goroutine: a Disconnect that ignores its context must not hang the harness)
 				dctx, dc := context.WithTimeout(context.Background(), 2*time.Second)
-				cli.Disconnect(dctx)
+				ddone := make(chan struct{})
+				go func() {
+					defer close(ddone)
+					defer func() { recover() }()
+					cli.Disconnect(dctx)
+				}()
+				select {
+				case <-ddone:
+				case <-time.After(4 * time.Second):
+				}
 				dc()
 			}
 		}()
